@@ -118,7 +118,21 @@ func (s *lightClientStateProvider) Commit(ctx context.Context, height uint64) (*
 	if err != nil {
 		return nil, err
 	}
+	if err := s.verifyFullCommit(header); err != nil {
+		return nil, err
+	}
 	return header.Commit, nil
+}
+
+// verifyFullCommit checks every signature of the light block's commit against the light
+// block's (verified) validator set. The light client itself stops at +2/3 when it verifies
+// forwards and looks at no signature at all when it verifies backwards, but the node
+// stores this commit as its seen commit and consensus rebuilds LastCommit from all of it.
+func (s *lightClientStateProvider) verifyFullCommit(lb *types.LightBlock) error {
+	if err := lb.ValidatorSet.VerifyCommit(s.lc.ChainID(), lb.Commit.BlockID, lb.Height, lb.Commit); err != nil {
+		return fmt.Errorf("commit for height %d is not fully valid: %w", lb.Height, err)
+	}
+	return nil
 }
 
 // State implements StateProvider.
@@ -145,6 +159,9 @@ func (s *lightClientStateProvider) State(ctx context.Context, height uint64) (sm
 	// the validator set at the snapshot height then this only takes effect at height+2.
 	lastLightBlock, err := s.lc.VerifyLightBlockAtHeight(ctx, int64(height), time.Now())
 	if err != nil {
+		return sm.State{}, err
+	}
+	if err := s.verifyFullCommit(lastLightBlock); err != nil {
 		return sm.State{}, err
 	}
 	currentLightBlock, err := s.lc.VerifyLightBlockAtHeight(ctx, int64(height+1), time.Now())
